@@ -8,6 +8,8 @@ from mc.engine import hbfs
 from mc.engine.report import Violation
 from mc.engine.seams import Canon
 
+import logging
+
 import ECAgent.Core as Core
 
 POS = {'first': 2, 'mid': 0, 'last': -2, 'none': None}
@@ -18,7 +20,7 @@ META = {
     'rule': 'BFS over histories of execute(1)/execute(2)/execute(3)/execute_systems()/execute_systems(True)/'
             'complete()/add/remove, per (completer position, completing timestep); distinct_nontrivial counts '
             'distinct (status, clock, log of the last operation) observations',
-    'alphabet': {'completer_position(priority)': POS, 'completing_timestep': TCS, 'recorders(key,priority)': RECS,
+    'alphabet': {'completer_position(priority)': POS, 'completing_timestep': TCS, 'logger': 'library default, or a caller-supplied logger with level ERROR', 'recorders(key,priority)': RECS,
                  'ops': 'execute(1), execute(2), execute(3), execute_systems(), execute_systems(throw_error=True), '
                         'complete() from outside, remove/add r0, remove/add rm, add new (priority 3), '
                         'complete() from inside by the completer when timestep == tc'},
@@ -34,14 +36,19 @@ class World:
 
 
 class Harness:
-    def __init__(self, pos, tc, horizon=4, second=False):
-        self.pos, self.tc, self.horizon, self.second = pos, tc, horizon, second
-        self.config = {'pos': pos, 'tc': tc, 'horizon': horizon, 'second': second}
+    def __init__(self, pos, tc, horizon=4, second=False, quiet=False):
+        self.pos, self.tc, self.horizon, self.second, self.quiet = pos, tc, horizon, second, quiet
+        self.config = {'pos': pos, 'tc': tc, 'horizon': horizon, 'second': second, 'quiet': quiet}
         self.cn = Canon()
 
     def fresh(self):
         w = World()
-        w.model = m = Core.Model(seed=1)
+        if self.quiet:       # a model built with the caller's own logger, set above INFO
+            lg = logging.getLogger('c06-quiet')
+            lg.setLevel(logging.ERROR)
+            w.model = m = Core.Model(seed=1, logger=lg)
+        else:
+            w.model = m = Core.Model(seed=1)
         w.log = log = []
         tc = self.tc
 
@@ -207,6 +214,8 @@ def configs(tier):
     for pos in POS:
         for tc in (TCS if pos != 'none' else [0]):
             yield (pos, tc, 4 if tier == 'quick' else 6, False)
+    for pos in POS:
+        yield (pos, 1, 4 if tier == 'quick' else 6, False, True)       # caller-supplied quiet logger
     if tier == 'thorough':
         for pos in ('first', 'last'):
             for tc in TCS:
@@ -216,7 +225,7 @@ def configs(tier):
 def run(ctx):
     for cfg in configs(ctx.tier):
         h = Harness(*cfg)
-        name = f'{cfg[0]}@t{cfg[1]}' + ('+second' if cfg[3] else '')
+        name = f'{cfg[0]}@t{cfg[1]}' + ('+second' if cfg[3] else '') + ('+quietlogger' if len(cfg) > 4 and cfg[4] else '')
         r = hbfs.explore(ctx, h, name, max_depth=40, procs=ctx.procs)
         ctx.leg(name, **r)
         if not r.get('fixpoint'):
@@ -227,4 +236,4 @@ def run(ctx):
 
 def replay(case):
     c = case['config']
-    hbfs.replay_case(Harness(c['pos'], c['tc'], c['horizon'], c['second']), case)
+    hbfs.replay_case(Harness(c['pos'], c['tc'], c['horizon'], c['second'], c.get('quiet', False)), case)
